@@ -275,7 +275,8 @@ class C36(SimSpec):
                 "C36_pass_latest", "C36_ksingle_per_key", "C36_run_hooks_releases_new",
                 "C36_can_run_iff", "C36_run_hooks_no_panic", "C36_top_order_sound",
                 "C36_top_fold_sound", "C36_top_merge_sound", "C36_inline_shuffle_perm",
-                "C36_inline_merge_interleaves", "C36_top_keyed_sound"]
+                "C36_inline_merge_interleaves", "C36_top_keyed_sound", "C36_top_kmerge_sound",
+                "C36_inline_kshuffle_sound", "C36_inline_partial_sound", "C36_inline_kmerge_sound"]
     trusted_base = ["coqc 8.16.1 kernel (vm_compute used for case evaluation only)",
                     "hand-written Gallina model coq/theories/Sim/Model.v of sim/runtime.rs hooks and compiled.rs run_hooks",
                     "correspondence harness harness/h_sim (scripted bolero DynDriver) + tools/sim.py",
